@@ -423,6 +423,12 @@ func (i *Interpreter) Preload(units []parse.SourceUnit, store factstore.FactStor
 	return i.pushLoadedFragment(preloadPathset, units)
 }
 
+// fragmentKey is the key of a fragment in sourceFragments. The same pathset
+// may be loaded more than once, so the position on the stack is part of it.
+func fragmentKey(pos int, pathset string) string {
+	return fmt.Sprintf("%d:%s", pos, pathset)
+}
+
 func (i *Interpreter) pushSourceFragment(pathset string, units []parse.SourceUnit, programInfo *analysis.ProgramInfo) {
 	i.src = append(i.src, pathset)
 	declCheckpoint := make(map[ast.PredicateSym]ast.Decl)
@@ -436,7 +442,7 @@ func (i *Interpreter) pushSourceFragment(pathset string, units []parse.SourceUni
 			hadDecl[sym] = false
 		}
 	}
-	i.sourceFragments[pathset] = &sourceFragment{units, programInfo, i.simpleStore, i.temporalStore, declCheckpoint, hadDecl}
+	i.sourceFragments[fragmentKey(len(i.src)-1, pathset)] = &sourceFragment{units, programInfo, i.simpleStore, i.temporalStore, declCheckpoint, hadDecl}
 	for _, decl := range programInfo.Decls {
 		i.knownPredicates[decl.DeclaredAtom.Predicate] = *decl
 	}
@@ -474,9 +480,10 @@ func (i *Interpreter) popSourceFragment() *sourceFragment {
 		return nil
 	}
 	path := i.src[l-1]
-	f := i.sourceFragments[path]
+	key := fragmentKey(l-1, path)
+	f := i.sourceFragments[key]
 	i.src = i.src[:l-1]
-	delete(i.sourceFragments, path)
+	delete(i.sourceFragments, key)
 	// The analysis result lists the declarations of all predicates known at
 	// the time, not only those of this fragment: forget only what the
 	// fragment added and put back what it replaced.
